@@ -446,6 +446,27 @@ def run(ctx):
                 info = prop_threads(case, r)
                 return r, info
             for (r, info), case in zip(tp.map(trial, trials), trials):
+                if r.viol:
+                    # a schedule-dependent observation: it counts only if the same trial shows it again in one of sixteen more
+                    # fresh processes (seeded thread defects reproduce in most runs; a one-in-a-thousand event that cannot
+                    # be shown again is reported as inconclusive, not as a violation)
+                    def rerun(_i, case=case):
+                        r2 = core.Result()
+                        prop_threads(case, r2)
+                        return bool(r2.viol)
+                    tp2 = ThreadPool(8)
+                    try:
+                        again = sum(tp2.map(rerun, range(16)))
+                    finally:
+                        tp2.close()
+                    res.evals += 16
+                    res.hist['threads:reruns-of-an-anomalous-trial'] += 16
+                    if not again:
+                        res.notes.setdefault('unconfirmed_thread_anomalies', []).append(
+                            dict((b, str(v['detail'])[:300]) for b, v in r.viol.items()))
+                        res.hist['threads:anomaly-not-reproduced-in-16-reruns'] += 1
+                        r.viol.clear()
+                        r.viol_count.clear()
                 res.merge(r)
                 res.hist['threads:trials'] += 1
                 if info and info.get('raced', 0) >= 2:
